@@ -109,6 +109,7 @@ func runC11Enumerate(r *simkit.Run) {
 	rec = func(prefix []st, depth int) {
 		if len(prefix) > 0 {
 			n++
+			simkit.Beat()
 			inst := newInstance(0)
 			var got []st
 			rep := status.NewReporter(func(_ *componentstatus.InstanceID, ev *componentstatus.Event) { got = append(got, ev.Status()) }, func(error) {})
@@ -366,22 +367,24 @@ func runC11Service(r *simkit.Run) {
 		if !strings.HasPrefix(k, "receiver:shr/") {
 			return
 		}
-		seenShared++
-		if seenShared-1 != trigger {
-			return
-		}
+		// the hook also runs on the goroutine of a concurrent reporter (when its own report is delivered)
 		id := k[len("receiver:"):strings.Index(k, "@")]
 		w.mu.Lock()
+		seenShared++
+		hit := seenShared-1 == trigger
 		h := w.hosts["receiver:"+id+":*"]
 		w.mu.Unlock()
-		if h == nil {
+		if !hit || h == nil {
 			return
 		}
 		r.Count("fault.concurrent_report_during_delivery")
 		r.Nontrivial = true
-		conc = append(conc, simkit.Go("concurrent-report", func(*simkit.Task) {
+		t := simkit.Go("concurrent-report", func(*simkit.Task) {
 			componentstatus.ReportStatus(h, componentstatus.NewEvent(sRec))
-		}))
+		})
+		w.mu.Lock()
+		conc = append(conc, t)
+		w.mu.Unlock()
 		for i := 0; i < 300; i++ {
 			runtime.Gosched()
 		}
@@ -416,14 +419,31 @@ func runC11Service(r *simkit.Run) {
 			r.Nontrivial = true
 		}
 	}
-	for _, t := range conc {
-		for i := 0; i < 1000 && !t.Done(); i++ {
+	// The concurrent reporters are blocked on plain mutexes only (invisible to the bubble's quiescence detection) and
+	// nobody holds those now: each one finishes as soon as the OS runs it. Wait for that, however long the machine
+	// takes - a bounded number of yields made the snapshot below depend on the load of the machine.
+	waitConc := func() {
+		for i := 0; ; i++ {
+			w.mu.Lock()
+			ts := append([]*simkit.Task(nil), conc...)
+			w.mu.Unlock()
+			done := true
+			for _, t := range ts {
+				if !t.Done() {
+					done = false
+				}
+			}
+			if done {
+				return
+			}
 			runtime.Gosched()
 		}
 	}
+	waitConc()
 	beforeShutdown := len(w.StatusLog())
 	_ = srv.Shutdown(context.Background())
 	r.Events++
+	waitConc() // a reporter started by an event of the shutdown itself
 	// oracle: per instance, the sequence delivered to the watcher is a path of the diagram
 	per := map[string][]st{}
 	lastBefore := map[string]st{} // status of each instance when Shutdown was called
@@ -480,6 +500,14 @@ func runC11Service(r *simkit.Run) {
 		for _, k := range order {
 			seq := per[k]
 			last := seq[len(seq)-1]
+			// Not part of the property's statement, a sanity check on the harness and the service: with no error ever
+			// reported the service's own Stopping/Stopped close every sequence. An error reported while Stopping
+			// (Stopping -> RecoverableError is a documented edge, RecoverableError -> Stopped is not) legitimately
+			// leaves the instance in that error: the service's Stopped is then an illegal transition and is dropped.
+			if last == sRec && len(seq) >= 2 && seq[len(seq)-2] == sStopg {
+				r.Count("probe.error_while_stopping_swallows_stopped")
+				continue
+			}
 			if last != sStopd && last != sFatal && !containsSt(seq, sPerm) && !containsSt(seq, sFatal) {
 				r.Failf("lifecycle", "not-stopped", "%s went through a clean start and shutdown but its last status is %s (%v)", k, last, seq)
 			}
